@@ -1248,10 +1248,12 @@ class WriteTool(BaseTool):
                         except (LexerError, ParserError):
                             baseline_doc, _ = parse_with_warnings(baseline_content_for_diff)
                         original_metrics = extract_structural_metrics(baseline_doc)
-                    except (LexerError, ParserError) as e:
+                    except (LexerError, ParserError, RecursionError) as e:
                         # GH#266: parse may fail on pre-repair content (e.g. NAME{qualifier}).
                         # Narrow to parse exceptions; let unexpected errors (IOError,
-                        # MemoryError, etc.) propagate naturally.
+                        # MemoryError, etc.) propagate naturally. RecursionError is a parse
+                        # failure too: the recursive-descent reader overflows on an existing
+                        # file that nests deeper than the interpreter stack allows.
                         original_metrics = None
                         corrections.append(
                             {
@@ -1371,7 +1373,7 @@ class WriteTool(BaseTool):
                                 "semantics_changed": False,
                             }
                         )
-                except (LexerError, ParserError) as exc:
+                except (LexerError, ParserError, RecursionError) as exc:
                     corrections.append(
                         {
                             "code": "W_FRONTMATTER_INHERITANCE_SKIPPED",
